@@ -237,10 +237,21 @@ func TestMagnitudesStaySmall(t *testing.T) {
 	}
 }
 
-// With CompensateSyncCache (default) the epochs context follows the state's sync
-// committee over many periods, and blocks are signed by the state's committee.
+// On the repaired zrnt (no compensation, the default) the epochs context follows the
+// state's sync committee over many periods; blocks are signed by the state's committee.
+// The same must hold with the compensation switched on.
 func TestSyncCommitteeFollowsState(t *testing.T) {
+	for _, comp := range []bool{false, true} {
+		testSyncCommitteeFollowsState(t, comp)
+	}
+}
+
+func testSyncCommitteeFollowsState(t *testing.T, compensate bool) {
 	c := newChain(t, PresetS1, Forks(1, 2, FarFuture, FarFuture), nil)
+	if c.CompensateSyncCache {
+		t.Fatal("CompensateSyncCache must default to false")
+	}
+	c.CompensateSyncCache = compensate
 	changes := 0
 	var last []common.ValidatorIndex
 	for s := common.Slot(1); s <= 40; s++ {
